@@ -39,8 +39,8 @@ Proof. exact spec_limit_on_sequence. Qed.
    end bounds the number of consecutive iterations a task may sit in the
    runahead pool although its point is within the limit (and likewise a ready
    task unqueued). *)
-Theorem c04_no_starvation : forall c s snap s',
-  step c s (ETickEnd snap) = Ok s' ->
+Theorem c04_no_starvation : forall c s snap hl hp s',
+  step c s (ETickEnd snap hl hp) = Ok s' ->
   forall p, In p (pool s') -> (p_idle p < max_idle)%nat /\ (p_lag p < max_idle)%nat.
 Proof. exact tick_end_progress. Qed.
 
@@ -50,5 +50,5 @@ Example c04_ex_spec :
   spec_limit {| c_insts := []; c_points := [1;2;3;4;5;6]; c_runahead := 2%nat; c_qlimits := [];
                 c_icp := 1; c_fcp := 6 |}
     {| pool := [new_task (2, 0%nat) [1%nat] [] false; new_task (3, 0%nat) [1%nat] [] false]; limbo := []; hist := [];
-       subs := []; limit := None; relq := []; abs_done := []; stop_point := 6; done := [] |} = Some 4.
+       subs := []; limit := None; relq := []; abs_done := []; stop_point := 6; done := []; to_hold := []; hold_pt := None |} = Some 4.
 Proof. vm_compute. reflexivity. Qed.
